@@ -66,7 +66,7 @@ scale), where the output-rounding allowance δ dominates.
 appd=f'''
 ## Appendix D — seeded changes and which check catches which
 
-Two rounds of changes to rust-random/rand_distr were written by independent
+Seven rounds of changes to rust-random/rand_distr were written by independent
 sub-agents. Each agent saw only the text of one property and its own scratch
 worktree (second round: also the one-line list of first-round changes, to
 avoid repeats); each change compiles, passes the full existing suite and comes
@@ -298,6 +298,33 @@ at MIN_POSITIVE) and Zipf<f32>(MAX, 0) — a regression of fix d69b147.
 |---|---|---|---|---|
 {rows(6)}
 
+**Round 7: 14 changes** for C04, C06, C07, C12, C13, C14, C15 (agents were
+given the list of source files no earlier change had touched). 11 of 14 were
+caught by their own property's quick check at the first evaluation; the three
+misses led to strengthenings, after which all 14 are caught (evaluation
+repeated for all 14 on the final harness, 38–135 s each including the rebuild):
+
+* R7-C14-1 (a thread-local cache keyed on parameters with the high bits
+  shifted out): bit-level sibling cells (integer parameter ± 2^k, float
+  mantissa bit flips) in the random schedules and as a deterministic sweep.
+* R7-C15-2 (a serde default skipped when the scale is within eps of 1):
+  near-default neighbour cells (0, ±1, 2, ½ and the adjacent floats in every
+  float parameter).
+* R7-C07-2 (Triangular range below the *absolute* epsilon returns the mode):
+  far power-of-two scale factors 2^±(9..30) for the envelope cells (exact
+  dyadic case).
+
+The first evaluation of this round is also the origin of the one defect this
+effort left in /repo: it was still running when the session ended, with
+R7-C07-2 applied to /repo's working tree; the next fresh-restore run of C07
+reported it, and it was handled as a genuine defect (fix c31dcc2, §0, §6).
+`scripts/eval_seeded.sh` now restores /repo from a trap and keeps an
+in-flight marker.
+
+| id | change | needs | caught by | time incl. rebuild |
+|---|---|---|---|---|
+{rows(7)}
+
 **Re-evaluation.** After round 4 every one of the 116 changes of rounds 1–3 was
 run again (scratch clone, final harness, own property's quick check): the
 detection matrix is unchanged — the only non-detections are the five already
@@ -337,7 +364,10 @@ set-up when both parameters are just above 1, f64 included), repaired by fix
 the pre-fix source in both float types. A fourth run (seeds 41–44 × three
 generators × 15 checks = 180 runs, binary of the state after round 5) printed
 no VIOLATION at all, and neither did a fifth run on the final binary (seeds
-51–53 × three generators × the ten checks changed after round 5 = 90 runs).
+51–53 × three generators × the ten checks changed after round 5 = 90 runs). A
+sixth run after round 7 and fix c31dcc2 (seeds 2, 61, 62 × three generators ×
+C07, C14, C15 — the checks strengthened in round 7 — = 27 runs, plus the full
+quick tier at VERIF_SEED=1 from a clean build) printed no VIOLATION either.
 
 {appe}
 ## Status / next steps (for a later session)
@@ -347,10 +377,19 @@ no VIOLATION at all, and neither did a fifth run on the final binary (seeds
   (`ctor_case`), C08 (`alias_vector`), C09 (`tree_history`), C10
   (`tree_sample`), C14 (`schedule`). The last full thorough sweep on the
   repaired tree passed for all 15 (≈ 3.5 h on 16 cores; C06 33 min, C09 48 min,
-  C03 30 min, C01 17 min are the long ones).
-* Six rounds of seeded changes (185 kept) are under `seeded/`; evaluate with
+  C03 30 min, C01 17 min are the long ones). After fix c31dcc2 (which makes
+  src/ byte-identical to the tree of that sweep) the full quick tier was run
+  from a clean build under the probe's environment (VERIF_SEED=1: 15 × exit 0,
+  no VIOLATION, evidence rewritten) and the thorough tiers of C07 (1.26e9
+  evaluations, 438 s) and C13 (386 s), the properties that judge Triangular
+  draw by draw, passed.
+* Seven rounds of seeded changes (199 kept) are under `seeded/`; evaluate with
   `scripts/eval_seeded.sh <id>[:CHECK[:TIER]] …` (applies to /repo, runs
-  `check.sh`, reverts). Patches touching files changed by later `fix:` commits
+  `check.sh`, reverts — from a trap as well, with an in-flight marker
+  `/verif/.seeded_in_flight`). **Never end a session while an evaluation is
+  running, and look at `git -C /repo status` and `git -C /repo log` before
+  the final commit**: an interrupted evaluation left seeded change R7-C07-2
+  in /repo once (§0; fix c31dcc2). Patches touching files changed by later `fix:` commits
   may need `git apply -3` (the script tries it) or a rebase (done for
   R2-C02-1, R2-C02-2).
 * Rule learnt the hard way: after every `fix:` commit run the *thorough* tier of
